@@ -295,7 +295,9 @@ def main(tier):
                 # would be an undefined-symbol fault in disguise
                 vv = rnd.randrange(4) if (kind == "loop" or cls not in ("immrange", "arity")) else rnd.randrange(2)
                 if cls == "undefsym":
-                    vv = rnd.randrange(8)   # 4..7: the undefined name next to a `defined(..)` probe in one expression
+                    vv = rnd.choice([v for v in range(14) if not (v == 12 and kind == "macro")])   # (mm inside mm's own body: a recursion, another fault)
+                    # 4..7: the undefined name next to a `defined(..)` probe in one expression; 8..13: in
+                                            # every other place a statement evaluates an expression (.align, * =, .loop, .const, macro argument, .word)
                 recs.append({"id": cid, "prog": G.tla_ready(prog), "files": {fn: G.tla_ready(p) for fn, p in files.items()},
                              "class": cls, "v": vv, "infile": infile, "path": path, "pos": pos})
                 bases[cid] = (cls, kind, infile)
